@@ -622,6 +622,10 @@ def classify_inv(ctx, f, t, state, acc):
                     if inner is not None and inner[0] == 'rank':
                         return ('perm-inverse', inner[1])
                     return None
+    # TABLE[S][x] / TABLE[S, x]: the table entry itself used as the digit
+    if t[0] == 'sub' and t[1][0] == 'sub' and t[1][1][0] == 'v' and t[1][1][1] == 'shuffles':
+        return ('dev', 'the decoder takes the table entry %s itself as the digit: that is the rank among all four columns, '
+                       'not among the live arcs (equal only at out-degree 4)' % show(t)[:80])
     # P[r]  (applying the permutation instead of inverting it)
     if t[0] == 'sub':
         p = classify_perm(ctx, f, t[1], state, acc)
